@@ -204,6 +204,8 @@ def linear(fn, n):
     k = n['k']
     if k == 'IntegerLiteral':
         return ('Z', int(n['val']))
+    if k == 'CXXBoolLiteralExpr':
+        return ('Z', 1 if n['val'] == 'true' else 0)
     if 'cval' in n and k not in ('DeclRefExpr', 'MemberExpr'):
         try:
             return ('Z', int(n['cval']))
@@ -283,7 +285,9 @@ def assume(fn, d, cond, truth):
     v = var_of(fn, n)
     if v is not None:
         if truth:
-            pass
+            if n.get('t', '').replace('const ', '') == 'bool':
+                d.add(v, 'Z', 1)
+                d.add('Z', v, -1)
         else:
             d.add(v, 'Z', 0)
             d.add('Z', v, 0)
@@ -506,8 +510,17 @@ def rel_lower_bounds(fn, d, n):
     return out
 
 
+def _is_bool(fn, v):
+    return isinstance(v, tuple) and v[0] == 'v' and fn.locals[v[1]]['type'].replace('const ', '') == 'bool'
+
+
 def assign_general(fn, d, v, rhs):
     """x := e for a non-linear e: keep every relational bound that can be derived."""
+    if _is_bool(fn, v):
+        d.forget(v)
+        d.add(v, 'Z', 1)
+        d.add('Z', v, 0)
+        return d
     ups = rel_upper_bounds(fn, d, rhs)
     los = rel_lower_bounds(fn, d, rhs)
     r = fn.strip(rhs)
